@@ -14,13 +14,15 @@ EXTENDS Naturals, FiniteSets, Sequences, TLC, Json
 CONSTANTS EP,        \* endpoint names
           Prefixes,  \* provider prefixes explored
           Types,     \* endpoint types explored
-          AllowedChoices   \* {{}} when generating (the table is data), SUBSET Types when model checking
+          AllowedChoices,  \* {{}} when generating (the table is data), SUBSET Types when model checking
+          Focus            \* GEN: only scenarios with a refusing endpoint among all-healthy ones
 
 VARIABLES prefix, allowed, typ, H,
           phase,     \* "cfg" | "sent" | "served" | "answered"
           served, scn
 vars == <<prefix, allowed, typ, H, phase, served, scn>>
 
+Refusing == IF "refuse" \in DOMAIN scn THEN scn.refuse ELSE {}
 OfKind(e) == typ[e] \in allowed \/ typ[e] = "auto"
 Eligible  == {e \in DOMAIN typ : e \in H /\ OfKind(e)}
 
@@ -29,7 +31,12 @@ Init == /\ prefix \in Prefixes /\ allowed \in AllowedChoices
         /\ \E n \in 1..Cardinality(EP) : \E f \in [{"e" \o ToString(i) : i \in 1..n} -> Types] : typ = f
         /\ H \in SUBSET (DOMAIN typ)
         /\ phase = "cfg" /\ served = "none"
-        /\ scn = [prefix |-> prefix, types |-> typ, H |-> H]
+        \* refuse: endpoints that are healthy as far as olla knows but refuse the connection when the request
+        \* comes (Focus: only the shape that matters for it -- everybody healthy, exactly one refusing)
+        /\ \E R \in SUBSET H :
+              /\ (Focus => Cardinality(DOMAIN typ) = Cardinality(EP) /\ H = DOMAIN typ /\ Cardinality(R) = 1)
+              /\ (~Focus => R = {})
+              /\ scn = [prefix |-> prefix, types |-> typ, H |-> H, refuse |-> R]
 
 Send == phase = "cfg" /\ phase' = "sent" /\ UNCHANGED <<prefix, allowed, typ, H, served, scn>>
 \* only a healthy endpoint of the provider's kind may be contacted
@@ -38,7 +45,7 @@ Dispatch(e) == /\ phase = "sent" /\ e \in Eligible
                /\ UNCHANGED <<prefix, allowed, typ, H, scn>>
 Answer(st) == /\ phase \in {"sent", "served"}
               /\ IF phase = "served" THEN st = 200
-                 ELSE Eligible = {} /\ st >= 400     \* an error, and nobody of another kind was contacted
+                 ELSE (Eligible \ Refusing) = {} /\ st >= 400     \* an error, and nobody of another kind was contacted
               /\ phase' = "answered" /\ UNCHANGED <<prefix, allowed, typ, H, served, scn>>
 \* a model listing under the prefix: only models available on endpoints of that kind
 Listing(ms, modelsOf) == /\ phase = "answered"
